@@ -1181,6 +1181,27 @@ static ALPHA: [M<'static>; 26] = [
 	m("ID", "3", Role::Unknown, "unknown"),
 ];
 
+/// Unknown members whose values are extreme for a JSON reader that builds them instead of skipping them: nesting around
+/// and beyond the usual recursion limit of 128, numbers outside the range of f64 / u64 / i64.
+static EXTREME_UNKNOWN: std::sync::LazyLock<Vec<(&'static str, String)>> = std::sync::LazyLock::new(|| {
+	let nest = |open: &str, close: &str, depth: usize, core: &str| format!("{}{core}{}", open.repeat(depth), close.repeat(depth));
+	vec![
+		("x_deep126", nest("[", "]", 126, "1")),
+		("x_deep127", nest("[", "]", 127, "1")),
+		("x_deep128", nest("[", "]", 128, "")),
+		("x_deep129", nest("[", "]", 129, "null")),
+		("x_deep500", nest("[", "]", 500, "")),
+		("x_obj130", nest("{\"a\":", "}", 130, "0")),
+		("x_mixed140", nest("[{\"k\":", "}]", 70, "[]")),
+		("x_1e999", "1e999".to_string()),
+		("x_neg_huge", "-1E+4000".to_string()),
+		("x_tiny", "1e-999".to_string()),
+		("x_long_int", "9".repeat(400)),
+		("x_long_frac", format!("0.{}1", "0".repeat(400))),
+		("x_neg_long_int", format!("-{}", "8".repeat(60))),
+	]
+});
+
 enum Want {
 	Accept,
 	/// the statement is silent (duplicated unknown member in an otherwise acceptable object)
@@ -1447,6 +1468,10 @@ fn random_sequences(seed: u64, n: u64, sample: bool, ev: &mut Evidence, sink: &m
 		}
 		for _ in 0..r.below(3) {
 			seq.push(ALPHA[22 + r.usize(4)]);
+		}
+		if r.chance(1, 6) {
+			let (k, v) = &EXTREME_UNKNOWN[r.usize(EXTREME_UNKNOWN.len())];
+			seq.push(M { key: k, val: v.as_str(), role: Role::Unknown, tag: "unknown-extreme-value" });
 		}
 		for _ in 0..r.below(4).saturating_sub(1) {
 			match r.below(5) {
